@@ -30,7 +30,7 @@ def pick_count(rng, lo, hi, D):
 def run_C18(chk):
     chk.prepare_model(['Cctz.Properties.C18', 'Cctz.Properties.C07Whole'], THEOREMS['C18'] + ['Cctz.C07Whole.frac_truncated', 'Cctz.C07Whole.frac_star'])
     exe = chk.harness('san')
-    scale = chk.tier if not chk.broken else 'thorough'
+    scale = chk.tier if not (chk.broken or chk.degraded) else 'thorough'
     if exe is None or not getattr(chk, 'driver_ok', False):
         return chk.finish()
     rng = chk.rng
